@@ -13,42 +13,8 @@
 // (cross-group modularity: single-file Verus cannot import another group. The two stubs below carry
 // exactly the postconditions `B3.post.exists_hit` / `B4.post.exists_hit` and the preconditions that
 // group `intervals` proves on the real text of `Block::content_intersects_with_any` /
-// `Block::start_tag_intersects_with_any`. They MUST be kept in sync with that group.)
-pub open spec fn ranges_wf(r: Seq<Range<usize>>) -> bool {
-    &&& forall|i: int| 0 <= i < r.len() ==> (#[trigger] r[i]).start < r[i].end
-    &&& forall|i: int, j: int| 0 <= i < j < r.len() ==> (#[trigger] r[i]).end < (#[trigger] r[j]).start
-}
-
-pub open spec fn lc_wf(lc: LineChange) -> bool {
-    lc.ranges matches Some(v) ==> ranges_wf(v@)
-}
-
-pub open spec fn col_lo(start: Position, line: usize) -> int {
-    if line == start.line { start.character - 1 } else { 0 }
-}
-
-pub open spec fn col_hi(end: Position, line: usize) -> int {
-    if line < end.line { usize::MAX as int } else { end.character - 1 }
-}
-
-/// region = [start, end) (content of a block)
-pub open spec fn hits_half_open(start: Position, end: Position, lc: LineChange) -> bool {
-    start.line <= lc.line <= end.line && (lc.ranges matches Some(v) ==>
-        exists|k: int| 0 <= k < v@.len() && (#[trigger] v@[k]).end > col_lo(start, lc.line) && v@[k].start < col_hi(end, lc.line))
-}
-
-/// region = [start, end] (start tag, from `<` to `>`)
-pub open spec fn hits_closed(start: Position, end: Position, lc: LineChange) -> bool {
-    start.line <= lc.line <= end.line && (lc.ranges matches Some(v) ==>
-        exists|k: int| 0 <= k < v@.len() && (#[trigger] v@[k]).end > col_lo(start, lc.line) && v@[k].start <= col_hi(end, lc.line))
-}
-
-pub open spec fn block_wf(b: Block) -> bool {
-    &&& b.content_position_range.start.character >= 1
-    &&& b.content_position_range.end.character >= 1
-    &&& b.start_tag_position_range@.start.character >= 1
-    &&& b.start_tag_position_range@.end.character >= 1
-}
+// `Block::start_tag_intersects_with_any`. They are pulled from that group's template on every run (//@copyfrom, //@stubof).)
+//@copyfrom file=groups/intervals.rs from=<<pub open spec fn ranges_wf>> until=<<impl Block {>>
 
 /// B3's postcondition as a function: some line change of the diff meets the block's content region
 pub open spec fn content_hit(b: Block, lcs: Seq<LineChange>) -> bool {
@@ -65,27 +31,11 @@ pub open spec fn lcs_wf(lcs: Seq<LineChange>) -> bool {
 }
 
 impl Block {
-    /// contract of unit B3 (group `intervals`); body not repeated here
-    #[verifier::external_body]
-    fn content_intersects_with_any(&self, line_changes: &[LineChange]) -> (b: bool)
-        requires
-            block_wf(*self), // [B3.pre.block_wf]
-            forall|i: int| 0 <= i < line_changes@.len() ==> lc_wf(#[trigger] line_changes@[i]), // [B3.pre.line_changes_wf]
-        ensures
-            b == exists|i: int| 0 <= i < line_changes@.len() && hits_half_open(
-                self.content_position_range.start, self.content_position_range.end, #[trigger] line_changes@[i]),
-    { unimplemented!() }
+    // contracts of units B3 / B4, pulled mechanically from group `intervals` where they are proved
+//@stubof group=intervals unit=B3
 
-    /// contract of unit B4 (group `intervals`); body not repeated here
-    #[verifier::external_body]
-    fn start_tag_intersects_with_any(&self, line_changes: &[LineChange]) -> (b: bool)
-        requires
-            block_wf(*self), // [B4.pre.block_wf]
-            forall|i: int| 0 <= i < line_changes@.len() ==> lc_wf(#[trigger] line_changes@[i]), // [B4.pre.line_changes_wf]
-        ensures
-            b == exists|i: int| 0 <= i < line_changes@.len() && hits_closed(
-                self.start_tag_position_range@.start, self.start_tag_position_range@.end, #[trigger] line_changes@[i]),
-    { unimplemented!() }
+//@stubof group=intervals unit=B4
+
 }
 
 // ---- T-dyn: the grammar behind a `LanguageParser` ---------------------------------------------------
